@@ -385,6 +385,69 @@ func (p *progFacts) errChanDrained(mc *ssa.MakeChan) (bool, []ssa.Value) {
 			}
 		}
 	})
+	if ok {
+		return ok, forwarded
+	}
+	// the wait may live in a helper called (synchronously) by the creator: `if done, err := awaitDone(cDone, cErr); !done
+	// { return err }`. The helper receives from the channel and returns the value; the creator returns that result.
+	for _, g := range p.funcs {
+		if topFunc(g) == topFunc(f) {
+			continue
+		}
+		var recvd []ssa.Value
+		for _, b := range g.Blocks {
+			for _, ins := range b.Instrs {
+				switch x := ins.(type) {
+				case *ssa.Select:
+					k := 0
+					for _, st := range x.States {
+						if st.Dir != types.RecvOnly {
+							continue
+						}
+						for _, src := range p.chanSources(st.Chan) {
+							if src == mc {
+								for _, r := range *x.Referrers() {
+									if ex, isEx := r.(*ssa.Extract); isEx && ex.Index == 2+k {
+										recvd = append(recvd, ex)
+									}
+								}
+							}
+						}
+						k++
+					}
+				case *ssa.UnOp:
+					if x.Op == token.ARROW {
+						for _, src := range p.chanSources(x.X) {
+							if src == mc {
+								recvd = append(recvd, x)
+							}
+						}
+					}
+				}
+			}
+		}
+		returnedByHelper := false
+		for _, v := range recvd {
+			if p.fateOf(v).returned {
+				returnedByHelper = true
+			}
+		}
+		if !returnedByHelper {
+			continue
+		}
+		for _, site := range p.callers[g] {
+			if _, isCall := site.(*ssa.Call); !isCall || topFunc(site.Parent()) != topFunc(f) {
+				continue
+			}
+			if ev := errValueOf(site); ev != nil {
+				ft := p.fateOf(ev)
+				if ft.returned || ft.sent {
+					ok = true
+					forwarded = append(forwarded, ft.sendChans...)
+				}
+			}
+		}
+	}
 	return ok, forwarded
 }
 
